@@ -19,7 +19,7 @@ CONSTANTS
  IndexSpace = 16
  MaxUncles = 2
  MaxMs = 70
- GenLens = {2, 3, 4, 5, 6, 7, 8}
+ GenLens = {2, 3, 5, 8}
  GenCompacts = {416, 336, 296}
  GenRates = {0, 7, 40}
  MaxNumber = 2
